@@ -120,4 +120,13 @@ TEXT = {
         "design_ref": "§8 C17", "note": "init-time range rejection through rtr_mgr_init is covered by the C15 check once built",
         "technique": _SIM + "interval oracle at rtr_sync return + timing oracle on the simulated clock",
     },
+    "C15": {
+        "text": "Manager failover under simulation: configurations of 1-3 groups, cache scripts that drive sockets through ERROR and ESTABLISHED in "
+                "many orders, operator add/remove-group sequences, and configurations that rtr_mgr_init must reject. Oracles are the statements "
+                "themselves, evaluated on every rtr_mgr_status_fp report and, for their consequences (less preferred groups shut down, best closed "
+                "group started), when the reporting socket thread is back in its state machine. Manager callbacks are serialised (no voluntary task "
+                "switch inside one), because the property quantifies over sequences of state changes, not over interleavings of two callbacks.",
+        "design_ref": "§8 C15", "note": "sampling of state-change sequences; the unsynchronised group status that two simultaneous callbacks can race on is outside this property's quantifier and not judged",
+        "technique": _SIM + "scripted caches drive socket state sequences; statement oracles on status reports",
+    },
 }
